@@ -23,6 +23,7 @@ Pool == << R(FALSE, "s1", {}, {}), R(FALSE, "s2", {}, {}), R(FALSE, "s1", {}, {e
            R(FALSE, "s3", {exampleOrg, exampleCom}, {}), R(FALSE, "s2", {exampleOrg}, {subExampleOrg}),
            R(FALSE, "s1", {exampleWild}, {}), R(FALSE, "s1", {exampleCom}, {exampleCom}), R(FALSE, "s3", {}, {exampleWild}),
            R(FALSE, "s2", {exampleWild, otherOrg}, {}), R(FALSE, "s3", {subExampleWild}, {}),
+           R(FALSE, "s2", {exampleOrg, notexampleOrg}, {}),
            R(TRUE, "s1", {exampleOrg}, {}), R(TRUE, "s1", {subExampleOrg}, {}), R(TRUE, "s2", {exampleCom}, {}),
            R(TRUE, "s3", {exampleWild}, {}), R(TRUE, "s2", {exampleOrg}, {subExampleOrg}) >>
 NP == Len(Pool)
